@@ -18,35 +18,37 @@
 EXTENDS Seqs, TLC
 
 CONSTANTS MaxDepth
-ThrRefs == {1, 3}        \* two threshold dictionaries owned by the user: 1 holds consistency thresholds, 3 amplitude thresholds
+ThrRefs == {1, 3, 5, 6}  \* threshold dictionaries owned by the user: 1 and 5 hold consistency thresholds, 3 and 6 amplitude thresholds
+ThrRefsOf(method) == IF method = "cycles" THEN {1, 5} ELSE {3, 6}
 TkOf(method) == IF method = "cycles" THEN 1 ELSE 3
 BkRef   == 2             \* one burst-options dictionary owned by the user
-Refs    == {1, 2, 3, 4}     \* 4: the find_extrema options (filter length, boundary) shared by objects and calls; never edited, must never change
-Editable == {1, 2, 3}
+Refs    == {1, 2, 3, 4, 5, 6}     \* 4: the find_extrema options (filter length, boundary) shared by objects and calls; never edited, must never change
+Editable == {1, 2, 3, 5, 6}
 Objs    == {1, 2}
 Sigs    == {1, 2}
 Mnc     == {0, 2, 3}     \* min_n_cycles: 0 = key absent
 Funcs   == {"compute_features", "compute_shape_features", "compute_burst_features", "recompute_edges", "recompute_edges_no_burst", "limit_df", "epoch_df",
             "drop_samples_df", "plot", "compute_features_2d", "compute_features_2d_epochs", "compute_features_3d",
-            "limit_df_keeping_all_cycles", "compute_burst_features_inverted_flanks"}
+            "limit_df_keeping_all_cycles", "compute_burst_features_inverted_flanks",
+            "compute_shape_features_n_cycles_5", "compute_features_default_options"}
 
 FuncsObjectHeavy == {"compute_features"}      \* substituted for Funcs (cfg: Funcs <- FuncsObjectHeavy) when simulating object-centred sessions
 VARIABLES heap, intent, obj, hist
 vars == <<heap, intent, obj, hist>>
 
-NoTable == [kind |-> "none", sig |-> 0, method |-> "", m |-> 0, lvl |-> 0, red |-> 0]
+NoTable == [kind |-> "none", sig |-> 0, method |-> "", m |-> 0, lvl |-> 0, red |-> 0, centre |-> ""]
 Eff(method, h, tk) == IF method = "amp" THEN (IF h[BkRef].mnc # 0 THEN h[BkRef].mnc ELSE IF h[tk].mnc # 0 THEN h[tk].mnc ELSE 3)
                       ELSE (IF h[tk].mnc # 0 THEN h[tk].mnc ELSE 3)
-Analyze(h, o, s) == [kind |-> "fit", sig |-> s, method |-> o.method, m |-> Eff(o.method, h, o.tk), lvl |-> h[o.tk].lvl, red |-> 0]
+Analyze(h, o, s) == [kind |-> "fit", sig |-> s, method |-> o.method, m |-> Eff(o.method, h, o.tk), lvl |-> h[o.tk].lvl, red |-> 0, centre |-> o.centre]
 
-Init == /\ heap = [r \in Refs |-> [mnc |-> 0, lvl |-> 1]]
+Init == /\ heap = [r \in Refs |-> [mnc |-> IF r \in ThrRefs THEN 2 ELSE 0, lvl |-> 1]]
         /\ intent = heap
-        /\ obj = [o \in Objs |-> [alive |-> FALSE, method |-> "cycles", tk |-> 1, df |-> NoTable]]
+        /\ obj = [o \in Objs |-> [alive |-> FALSE, method |-> "cycles", tk |-> 1, centre |-> "peak", df |-> NoTable]]
         /\ hist = <<>>
 
 Log(e) == hist' = Append(hist, e)
-New(o, method, tk) == /\ tk = TkOf(method)
-                      /\ obj' = [obj EXCEPT ![o] = [alive |-> TRUE, method |-> method, tk |-> tk, df |-> NoTable]]
+New(o, method, tk) == /\ tk \in ThrRefsOf(method)
+                      /\ obj' = [obj EXCEPT ![o] = [alive |-> TRUE, method |-> method, tk |-> tk, centre |-> "peak", df |-> NoTable]]
                       /\ Log([a |-> "New", o |-> o, method |-> method, tk |-> tk, s |-> 0, v |-> 0])
                       /\ UNCHANGED <<heap, intent>>
 Fit(o, s) == /\ obj[o].alive
@@ -56,11 +58,11 @@ Fit(o, s) == /\ obj[o].alive
 \* recompute_edges(r): functional edge recomputation of the object's table with every *_threshold lowered by r (current settings)
 Recompute(o, r) == /\ obj[o].alive /\ obj[o].method = "cycles" /\ obj[o].df.kind \in {"fit", "edges"}
                    /\ obj' = [obj EXCEPT ![o].df = [kind |-> "edges", sig |-> obj[o].df.sig, method |-> "cycles", m |-> Eff("cycles", heap, obj[o].tk),
-                                                    lvl |-> heap[obj[o].tk].lvl, red |-> r]]
+                                                    lvl |-> heap[obj[o].tk].lvl, red |-> r, centre |-> obj[o].df.centre]]
                    /\ Log([a |-> "Recompute", o |-> o, method |-> "cycles", tk |-> obj[o].tk, s |-> 0, v |-> r])
                    /\ UNCHANGED <<heap, intent>>
 Load(o, s) == /\ obj[o].alive
-              /\ obj' = [obj EXCEPT ![o].df = [kind |-> "loaded", sig |-> s, method |-> "", m |-> 0, lvl |-> 0, red |-> 0]]
+              /\ obj' = [obj EXCEPT ![o].df = [kind |-> "loaded", sig |-> s, method |-> "", m |-> 0, lvl |-> 0, red |-> 0, centre |-> ""]]
               /\ Log([a |-> "Load", o |-> o, method |-> obj[o].method, tk |-> obj[o].tk, s |-> s, v |-> 0])
               /\ UNCHANGED <<heap, intent>>
 \* the user edits one of the dictionaries (field mnc: 0 removes the key; field lvl: the threshold level)
@@ -69,11 +71,20 @@ EditDict(r, field, val) == /\ heap' = [heap EXCEPT ![r][field] = val]
                            /\ heap[r][field] # val
                            /\ Log([a |-> "Edit", o |-> r, method |-> field, tk |-> 0, s |-> 0, v |-> val])
                            /\ UNCHANGED obj
+\* the user assigns public attributes of an existing object: another centring, or ANOTHER threshold dictionary (re-binding, not editing)
+SetCentre(o, c) == /\ obj[o].alive /\ obj[o].centre # c
+                   /\ obj' = [obj EXCEPT ![o].centre = c]
+                   /\ Log([a |-> "SetCentre", o |-> o, method |-> c, tk |-> obj[o].tk, s |-> 0, v |-> 0])
+                   /\ UNCHANGED <<heap, intent>>
+Rebind(o, tk) == /\ obj[o].alive /\ tk \in ThrRefsOf(obj[o].method) /\ tk # obj[o].tk
+                 /\ obj' = [obj EXCEPT ![o].tk = tk]
+                 /\ Log([a |-> "Rebind", o |-> o, method |-> obj[o].method, tk |-> tk, s |-> 0, v |-> 0])
+                 /\ UNCHANGED <<heap, intent>>
 GetAttr(o) == /\ obj[o].alive
               /\ Log([a |-> "GetAttr", o |-> o, method |-> obj[o].method, tk |-> obj[o].tk, s |-> 0, v |-> 0])
               /\ UNCHANGED <<heap, intent, obj>>
 \* a functional-API call that shares the user's dictionaries, a signal and (for table functions) an object's table
-Call(f, method, tk, s) == /\ tk = TkOf(method) /\ (f \in {"recompute_edges", "recompute_edges_no_burst"} => method = "cycles")
+Call(f, method, tk, s) == /\ tk \in ThrRefsOf(method) /\ (f \in {"recompute_edges", "recompute_edges_no_burst"} => method = "cycles")
                           /\ Log([a |-> "Call", o |-> 0, method |-> method, tk |-> tk, s |-> s, v |-> 0, f |-> f])
                           /\ UNCHANGED <<heap, intent, obj>>
 
@@ -84,6 +95,8 @@ Next == /\ Len(hist) < MaxDepth
            \/ \E r \in Editable, val \in Mnc : EditDict(r, "mnc", val)
            \/ \E r \in ThrRefs, val \in {1, 2} : EditDict(r, "lvl", val)
            \/ \E o \in Objs : GetAttr(o)
+           \/ \E o \in Objs, c \in {"peak", "trough"} : SetCentre(o, c)
+           \/ \E o \in Objs, tk \in ThrRefs : Rebind(o, tk)
            \/ \E f \in Funcs, method \in {"cycles", "amp"}, tk \in ThrRefs, s \in Sigs : Call(f, method, tk, s)
 Spec == Init /\ [][Next]_vars
 
@@ -93,6 +106,8 @@ NextVal(field, cur) == IF field = "mnc" THEN (IF cur = 0 THEN 2 ELSE IF cur = 2 
 FuncsFocus == {"compute_features", "recompute_edges"}
 NextFocused == /\ Len(hist) < MaxDepth
                /\ \/ \E o \in Objs, method \in {"cycles", "amp"} : New(o, method, TkOf(method))
+                  \/ \E o \in Objs, c \in {"peak", "trough"} : SetCentre(o, c)
+                  \/ \E o \in Objs, tk \in ThrRefs : Rebind(o, tk)
                   \/ \E o \in Objs, s \in Sigs : Fit(o, s) \/ Load(o, s)
                   \/ \E o \in Objs, r \in {0, 1} : Recompute(o, r)
                   \/ \E r \in Editable : EditDict(r, "mnc", NextVal("mnc", heap[r].mnc))
@@ -100,6 +115,19 @@ NextFocused == /\ Len(hist) < MaxDepth
                   \/ \E o \in Objs : GetAttr(o)
                   \/ \E f \in FuncsFocus, method \in {"cycles", "amp"}, s \in Sigs : Call(f, method, TkOf(method), s)
 SpecFocused == Init /\ [][NextFocused]_vars
+\* A second sub-relation for RE-FIT scenarios: one object, one signal - fit, change something (edit a dictionary, re-bind, other centring,
+\* recompute, plot, a functional call), fit the same signal again.
+FuncsRefit == {"plot", "compute_features", "compute_shape_features_n_cycles_5", "compute_features_default_options"}
+NextRefit == /\ Len(hist) < MaxDepth
+             /\ \/ \E method \in {"cycles", "amp"} : ~obj[1].alive /\ New(1, method, TkOf(method))
+                \/ Fit(1, 1)
+                \/ \E r \in {0, 1} : Recompute(1, r)
+                \/ \E r \in Editable : EditDict(r, "mnc", NextVal("mnc", heap[r].mnc))
+                \/ \E r \in ThrRefs : EditDict(r, "lvl", NextVal("lvl", heap[r].lvl))
+                \/ \E c \in {"peak", "trough"} : SetCentre(1, c)
+                \/ \E tk \in ThrRefs : Rebind(1, tk)
+                \/ \E f \in FuncsRefit : obj[1].alive /\ Call(f, obj[1].method, obj[1].tk, 1)
+SpecRefit == Init /\ [][NextRefit]_vars
 Count(a) == Cardinality({ k \in 1 .. Len(hist) : hist[k].a = a })
 Rich == Count("Fit") >= 2 /\ Count("Edit") >= 1 /\ Count("Edit") <= 4 /\ \E i, j \in 1 .. Len(hist) : i < j /\ hist[i].a = "Fit" /\ hist[j].a \in {"Edit", "Recompute", "Call"}
 AtDepthRich == (Len(hist) = MaxDepth /\ Rich) => PrintT(<<"BEHAVIOUR", hist>>)
